@@ -18,7 +18,9 @@ RULE = ("names: every string over {a,z,0,9,-,.,A,_,+,space}: quick = all lengths
         "brings the FULL name to 253/254/255 (accepted) and 256/257/258 bytes, a 64-byte label, children of the 254/255-byte names "
         "(257..319 bytes), malformed labels below a registered parent, each through register (committed), isAvailable, addRecord's name "
         "argument, setRecord, getRecords and as CNAME data; corpus: the F7/F8/F9 witnesses, the boundary inputs, setRecord on existing "
-        "records, the registered parent chain. "
+        "records, the registered parent chain, cross-type duplicates. Duplicates are per type: the setRecord base name also holds TXT records "
+        "whose texts are a public IPv4, a global-unicast IPv6 and a valid name; setRecord(A/AAAA/CNAME, 0, that text) and the mirrored "
+        "TXT direction are probed as dry runs, as a committed case and inside the histories (data = text of a record of another type). "
         "op_histogram['exhaustive.*'] = number of strings of each exhaustive stratum, op_histogram['seconds.shardNN'] = wall seconds of "
         "each shard's generation. distinct_nontrivial = distinct (operation, observation) pairs of HALTed invocations")
 PROPS = {
